@@ -41,6 +41,7 @@ def check(chk):
                        "Requests arriving inside queue events beyond the freshness rule are not decided.")
     game = repo.cls(GM, G)
     run = repo.func(GM, G + "._run")
+    _game_end_waits(chk)
 
     # ------------------------------------------------------------ TRACE-1
     tb = TraceBuilder(repo, game, alphabet=ALPHABET, assumed_false=ASSUMED_FALSE)
@@ -447,6 +448,12 @@ def _in_while_test(fn, expr, needle):
     return False
 
 
+
+def _game_end_waits(chk):
+    from sa.helpers import stop_loop_selection
+    stop_loop_selection(chk, "PAIR-7", "game", "a game mode still stopping when the game mode stops runs outside of a game; the game never finishes ending")
+
+
 def battery():
     from sa.battery import M
     return [
@@ -482,6 +489,7 @@ def battery():
         # twins
         M("twin: end decision via helper locals after turn end", GM, "            await self._end_player_turn()\n\n            if self.slam_tilted or self.player.ball >= self.balls_per_game and self.player.number == self.num_players:", "            await self._end_player_turn()\n\n            if self.slam_tilted or (self.player.ball >= self.balls_per_game and self.player.number == self.num_players):", None),
         M("twin: debug log added", GM, "        self.debug_log(\"Game started\")", "        self.debug_log(\"Game started!\")", None),
+        M("game end does not wait for a game mode that is already stopping", GM, "            if mode.is_game_mode and mode.active:\n                self._stopping_modes.append(mode)", "            if mode.is_game_mode and mode.active and not mode.stopping:\n                self._stopping_modes.append(mode)", "PAIR-7"),
     ]
 
 
